@@ -139,10 +139,43 @@ def declare(reg):
     reg.contract("<stdlib>", "MH.aremove", params={"self": "ref:MH", "key": "int"},
                  ensures={"removed": "self.g_keys == old(self.g_keys) - {key}"}, modifies=["self.g_keys"],
                  trusted=True, yields=True, note="A-MH: mailbox.MH.remove deletes exactly that message file (asimap.mh.MH.aremove wraps it in a thread)")
-    reg.contract(P, "Mailbox._dispatch_or_pend_notifications",
-                 params={"self": "ref:Mailbox", "notifications": "StrOrList", "dont_notify": "opt[ref:Authenticated]"},
-                 modifies=["*.pending_notifications", "ClientProxy.g_out"], trusted=True, yields=True,
-                 note="assumed here (pushes or queues, touches only clients' pending_notifications); proved separately under C01")
+    # new == old ++ data
+    reg.specfn("appended", "new: list[str], old_: list[str], data: list[str]", "bool",
+               "len(new) == len(old_) + len(data) and forall(lambda j: implies(0 <= j and j < len(old_), new[j] == old_[j])) and "
+               "forall(lambda i: implies(len(old_) <= i and i < len(new), new[i] == data[i - len(old_)]))", recursive=True)
+    # stated for one arbitrary selected session p0 (ghost parameter): callers get it for all p0
+    C0 = "get(self.clients, p0)"
+
+    def untouched(base):
+        return f"same({C0}.pending_notifications, {base}({C0}.pending_notifications)) and same({C0}.client.g_out, {base}({C0}.client.g_out))"
+
+    def delivered(base, nl):
+        return (f"ite({C0} == dont_notify, {untouched(base)}, ite({C0}.idling, "
+                f"appended({C0}.client.g_out, {base}({C0}.client.g_out), {nl}) and same({C0}.pending_notifications, {base}({C0}.pending_notifications)), "
+                f"appended({C0}.pending_notifications, {base}({C0}.pending_notifications), {nl}) and same({C0}.client.g_out, {base}({C0}.client.g_out))))")
+
+    reg.contract(
+        P, "Mailbox._dispatch_or_pend_notifications",
+        params={"self": "ref:Mailbox", "notifications": "StrOrList", "dont_notify": "opt[ref:Authenticated]"},
+        requires={
+            # distinct sessions are distinct objects with distinct connections
+            "clients-injective": "forall(lambda p, q: implies(p in self.clients and q in self.clients and p != q, "
+                                 "get(self.clients, p) != get(self.clients, q) and get(self.clients, p).client != get(self.clients, q).client), 'str', 'str')",
+            "p0-selected": "p0 in self.clients",
+        },
+        # every selected session except `dont_notify` gets the notifications, in order, exactly once:
+        # pushed now if idling, otherwise queued behind what is already pending
+        ensures={
+            "delivered": "implies(truthy_notes(notifications), " + delivered("old", "notes_list(notifications)") + ")",
+            "nothing-when-empty": "implies(not truthy_notes(notifications), " + untouched("old") + ")",
+        },
+        loops={0: {"invariant": {"progress": "ite(pos(_it, p0) < _i, " + delivered("lpre", "notifications") + ", " + untouched("lpre") + ")"}}},
+        modifies=["*.pending_notifications", "ClientProxy.g_out"],
+        props=["C01", "C04"],
+        ghost={"harness": "harness.notify:Dispatch", "ghost_params": {"p0": "str"}, "ghost_requires": {"p0-selected": "p0 in self.clients"}},
+    )
+    reg.specfn("truthy_notes", "n: StrOrList", "bool", "ite(isinstance(n, str), len(str_of(n)) > 0, len(list_of(n)) > 0)")
+    reg.specfn("notes_list", "n: StrOrList", "list[str]", "ite(isinstance(n, str), single(str_of(n)), list_of(n))")
     reg.contract(P, "Mailbox.commit_to_db", params={"self": "ref:Mailbox"}, trusted=True, yields=True,
                  note="assumed: writes the mailbox row to sqlite, changes no Mailbox field (C12 states its contract)")
     reg.contract(
@@ -259,9 +292,7 @@ def declare(reg):
                  ret="tuple[str,str]", **T, note="assumed here (pure string builder; C07 states its grammar)")
     reg.contract(P, "Mailbox.check_set_haschildren_attr", params={"self": "ref:Mailbox"}, modifies=["self.attributes"], **T, note="assumed: only attributes")
     reg.contract("<proxy>", "ClientProxy.push", params={"self": "ref:ClientProxy", "data": "list[str]"}, yields=True, **T,
-                 ensures={"appended": "len(self.g_out) == len(old(self.g_out)) + len(data) and "
-                                      "forall(lambda j: implies(0 <= j and j < len(old(self.g_out)), self.g_out[j] == old(self.g_out)[j])) and "
-                                      "forall(lambda i: implies(len(old(self.g_out)) <= i and i < len(self.g_out), self.g_out[i] == data[i - len(old(self.g_out))]))"},
+                 ensures={"appended": "appended(self.g_out, old(self.g_out), data)"},
                  modifies=["self.g_out"],
                  ghost={"varargs": "data"}, note="A-ASYNC: hands the data to the client's socket in order (ghost g_out records it)")
 
@@ -327,3 +358,6 @@ def declare(reg):
             {"name": "resync-real-folder", "module": "harness.mboxops", "func": "Resync"})
     reg.properties.setdefault("C13", {}).setdefault("bounded", []).append(
         {"name": "expunge-real-folder", "module": "harness.mboxops", "func": "Expunge"})
+    for pid in ("C01", "C04"):
+        reg.properties.setdefault(pid, {}).setdefault("bounded", []).append(
+            {"name": "dispatch-or-pend", "module": "harness.notify", "func": "Dispatch"})
